@@ -415,7 +415,9 @@ fn case_calls1<T: Elem>(case: u64, args: &Args, ev: &mut Ev) {
                 vals[0] = T::infinity();
                 vals[1] = T::of(-7.5);
             }
-            let qa = Query::from_vec(vals.clone(), &qshape, kind);
+            let qlay = vh::lay::Layout::random(&mut rng, qshape.len());
+            ev.count("query_layout", qlay.class());
+            let qa = Query::with_layout(&ArrayD::from_shape_vec(IxDyn(&qshape), vals.clone()).unwrap(), kind, &qlay);
             ev.count("query_kind", kind.name());
             h.reset_calls();
             match interp.many(&qa) {
@@ -555,8 +557,11 @@ fn case_calls2<T: Elem>(case: u64, args: &Args, ev: &mut Ev) {
             if nq > 1 {
                 vx[0] = T::nan();
             }
-            let qx = Query::from_vec(vx.clone(), &qshape, kind);
-            let qy = Query::from_vec(vy.clone(), &qshape, kind);
+            let lx = vh::lay::Layout::random(&mut rng, qshape.len());
+            let ly = vh::lay::Layout::random(&mut rng, qshape.len());
+            ev.count("query_layout", ly.class());
+            let qx = Query::with_layout(&ArrayD::from_shape_vec(IxDyn(&qshape), vx.clone()).unwrap(), kind, &lx);
+            let qy = Query::with_layout(&ArrayD::from_shape_vec(IxDyn(&qshape), vy.clone()).unwrap(), kind, &ly);
             ev.count("query_kind", format!("2d-{}", kind.name()));
             h.reset_calls();
             match interp.many(&qx, &qy) {
